@@ -142,6 +142,10 @@ func (p *Core) onSendRefused(ps *PktState, why string) {
 	if ps.expect.verdict > 0 {
 		w.Violate("C08", "send-refused-against-model", "", fmt.Sprintf("send on route %s dir %d refused (%s) although every guard of the model holds", p.Routes[ps.Route].Kind, ps.Dir, firstLine(why)))
 	}
+	if r := p.Routes[ps.Route]; !r.V2 && p.closed[chanKey(r.Chain[ps.Dir].Idx, r.Port[ps.Dir], r.ID[ps.Dir])] {
+		w.Stats.NonTrivial("closed-ordered:send:refused")
+		w.Stats.Probe("send_refused_on_channel_closed_by_timeout")
+	}
 	w.Stats.Probe("send_refused")
 	w.Stats.NonTrivial("send-refused:" + p.Routes[ps.Route].Kind + ":" + ps.expect.why)
 }
@@ -284,11 +288,12 @@ func (p *Core) oracleBlock(ci int, res []*sim.TxResult, taps []Tap, diff []sim.C
 			continue
 		}
 		if out != "success" {
-			if lbl == "recv" && out == "failed" && p.recvMustSucceed(ps, r, pr, ci) {
-				// completeness is only demanded in the drain phase (liveness after faults stop)
-			}
+			p.noteRefused(ci, ps, lbl, out, pr)
 			p.checkFailedRecvKeepsNothing(ps, r, lbl, out, res, diff)
 			continue
+		}
+		if !ps.V2 && lbl != "recv" && pr.closedSrc {
+			w.Stats.NonTrivial("closed-ordered:" + lbl + ":success")
 		}
 		ph := proofHeightOf(lastMsg(r))
 		switch lbl {
@@ -375,7 +380,48 @@ func isCommitmentKey(k string) bool {
 	return n > 9 && k[n-9] == 0x01 && !strings.Contains(k[:n-9], "/")
 }
 
-func (p *Core) recvMustSucceed(ps *PktState, r *sim.TxResult, pr PktState, ci int) bool { return false }
+// noteRefused records which interesting refusals this world produced (reach measures).
+func (p *Core) noteRefused(ci int, ps *PktState, lbl, out string, pr PktState) {
+	w := p.w
+	kind := p.Routes[ps.Route].Kind
+	if lbl == "recv" && ps.Ordered {
+		k := fmt.Sprintf("r%d/%s", ci, ps.DstID())
+		if ps.Seq() > p.lastRecv[k]+1 {
+			w.Stats.NonTrivial(fmt.Sprintf("ooo:%s:%s:gap%d", kind, out, min64(3, int64(ps.Seq()-p.lastRecv[k]-1))))
+			w.Stats.Probe("ordered_out_of_order_receive_refused")
+		}
+	}
+	if lbl == "recv" && out == "failed" && pr.RecvHeight == 0 {
+		if exp, _ := expectedRecvOutcome(ps); exp == "txfail" {
+			w.Stats.NonTrivial(fmt.Sprintf("txfail:%s:%s", kind, strings.Join(ps.Behav, ",")))
+			w.Stats.Probe("receive_tx_failed_as_scripted")
+		}
+	}
+	if lbl == "ack" && ps.Ordered {
+		k := fmt.Sprintf("a%d/%s", ci, ps.SrcID())
+		if ps.Seq() > p.lastAck[k]+1 {
+			w.Stats.NonTrivial(fmt.Sprintf("ooo-ack:%s:%s", kind, out))
+			w.Stats.Probe("ordered_out_of_order_ack_refused")
+		}
+	}
+	if (lbl == "tmo" || lbl == "toc") && pr.RecvHeight == 0 && pr.Done == "" {
+		w.Stats.NonTrivial("early-refused:" + kind + ":" + lbl)
+		w.Stats.Probe("timeout_refused")
+	}
+	if !ps.V2 {
+		if (lbl == "recv" && pr.closedDst) || (lbl != "recv" && pr.closedSrc) {
+			w.Stats.NonTrivial("closed-ordered:" + lbl + ":" + out)
+			w.Stats.Probe("packet_message_refused_on_channel_closed_by_timeout")
+		}
+	}
+}
+
+func min64(a, b int64) int64 {
+	if a < b {
+		return a
+	}
+	return b
+}
 
 // checkFailedRecvKeepsNothing: a packet transaction that failed, or answered NOOP, must not have
 // reached the application (taps of failed txs are dropped by construction) nor changed state.
@@ -412,11 +458,11 @@ func (p *Core) checkRecv(ci int, ps *PktState, r *sim.TxResult, pr PktState, ph 
 		}
 	}
 	if w.Armed("C05") && !ps.V2 {
-		if p.closed[chanKey(ci, ps.P1.DestinationPort, ps.P1.DestinationChannel)] {
+		if pr.closedDst {
 			w.Violate("C05", "receive-on-closed-channel", "", fmt.Sprintf("%s: received on a channel end that is CLOSED", ps.Pkt))
 		}
 	}
-	if !ps.V2 && p.closed[chanKey(ci, ps.P1.DestinationPort, ps.P1.DestinationChannel)] {
+	if !ps.V2 && pr.closedDst {
 		w.Violate("C14", "receive-on-closed-ordered-channel", "", fmt.Sprintf("%s: received on an ordered channel end closed by a timeout", ps.Pkt))
 	}
 	if ps.RecvCb != 1 && parseBehav(ps.Behav[0]).kind != "" {
@@ -609,7 +655,7 @@ func (p *Core) checkAck(ci int, ps *PktState, r *sim.TxResult, pr PktState, ph c
 	if pr.Done == "timedout" {
 		w.Violate("C03", "ack-after-timeout", "", fmt.Sprintf("%s: acknowledged after it had been timed out", ps.Pkt))
 	}
-	if !ps.V2 && p.closed[chanKey(ci, ps.P1.SourcePort, ps.P1.SourceChannel)] {
+	if !ps.V2 && pr.closedSrc {
 		w.Violate("C14", "ack-on-closed-ordered-channel", "", fmt.Sprintf("%s: acknowledgement processed on an ordered channel end closed by a timeout", ps.Pkt))
 	}
 	if ps.AckCb != 1 {
